@@ -463,6 +463,17 @@ def check_position(ctx, exc, candidates, text_for_detail, only_file=None):
         fail('context-shape', 'context is not [.., line, pointer]')
         return 'pos:bad'
     want = line.strip('\r\n')
+    if kind == 'token' and (exc.msg or '').startswith('Illegal character '):
+        # the error token's value is the rest of the input, so the offset of
+        # the offending character is known: its line is the line in error
+        off = len(text) - cx[-1].count('^')
+        if 0 <= off < len(text):
+            tline = text.count('\n', 0, off) + 1
+            if tline != ln and \
+                    not _uncounted_comment_lines(text, lines, cx[-2], ln):
+                fail('lineno-is-not-the-line-of-the-illegal-character',
+                     'the character is on line %d' % tline)
+                return 'pos:bad'
     if cx[-2].strip('\r\n') != want:
         if kind == 'production' and ctx.sub != 'strings':
             return 'pos:production-context-unchecked'
@@ -479,6 +490,16 @@ def check_position(ctx, exc, candidates, text_for_detail, only_file=None):
             fail('token-error:context-is-not-line-lineno',
                  'line %d is %r' % (ln, want))
         return 'pos:bad'
+    if kind == 'token':
+        # the lines shown before the line in error are the lines before
+        # line lineno (a wrong lineno can hit a line with the same text)
+        before = [x.strip('\r\n') for x in cx[:-2]]
+        have = [x.strip('\r\n') for x in lines[:ln - 1]][-len(before):] \
+            if before else []
+        if before != have:
+            fail('token-error:context-lines-are-not-the-lines-before-lineno',
+                 'lines before line %d are %r' % (ln, have))
+            return 'pos:bad'
     if type(col) is not int or not 0 <= col <= len(line) + 1:
         fail('column-outside-line-%s-error' % kind,
              'line %d has %d characters' % (ln, len(line)))
@@ -519,6 +540,59 @@ def check_position(ctx, exc, candidates, text_for_detail, only_file=None):
              (p0, col))
         return 'pos:bad'
     return 'pos:bad' if bad else 'pos:token'
+
+
+def _cr_in_literal(text):
+    "A CR after a quote on the same line (may sit inside a string literal)"
+    for ln_text in text.split('\n'):
+        qpos = min([i for i in (ln_text.find('"'), ln_text.find("'"))
+                    if i >= 0] or [-1])
+        if qpos >= 0 and '\r' in ln_text[qpos:].rstrip('\r'):
+            return True
+    return False
+
+
+def check_cr_invariance(ctx, exc, text, ns, search_paths=None):
+    """
+    CR is white space for the lexer and no line end: the same text with
+    every CR replaced by a blank has the same tokens at the same offsets and
+    the same number of lines, so an error with a position must be reported
+    with the same message, line and column.  This tells whether the line
+    reported for CR-LF (or CR) text is the line of the offending token
+    without knowing that token.  Skipped when a CR may lie inside a literal
+    (there it is not white space).  Returns a class label.
+    """
+    if '\r' not in text or exc.lineno is None:
+        return None
+    if _cr_in_literal(text):
+        return 'cr-invariance:skipped-cr-after-quote'
+    comp = new_compiler(search_paths=search_paths)
+    kind2, exc2 = _attempt(
+        lambda: comp.compile_string(text.replace('\r', ' '), ns))
+    if kind2 != 'mof' or type(exc2) is not type(exc) or \
+            exc2.msg != exc.msg or exc2.lineno is None:
+        return 'cr-invariance:incomparable'
+    if (exc2.lineno, exc2.column) != (exc.lineno, exc.column):
+        ctx.fail('position:lineno-or-column-changes-when-CR-is-replaced-by-'
+                 'blank:' + ('lineno' if exc2.lineno != exc.lineno
+                             else 'column'),
+                 'with CR: line %r column %r; CR replaced by blank: line %r '
+                 'column %r; msg=%r\ninput: %s' %
+                 (exc.lineno, exc.column, exc2.lineno, exc2.column, exc.msg,
+                  runner.short_repr(text, 700)))
+        return 'cr-invariance:violated'
+    return 'cr-invariance:held'
+
+
+def eol_classes(text):
+    out = []
+    if '\r\n' in text:
+        out.append('eol:crlf')
+        if re.search(r'\r\n[ \t\r]*\n', text):
+            out.append('eol:crlf-blank-lines')
+    if re.search(r'\r(?!\n)', text):
+        out.append('eol:bare-cr')
+    return out
 
 
 # ---------------------------------------------------------------------------
@@ -584,6 +658,11 @@ def judge(ctx, kind, exc, text, files_involved, candidates, label=None,
 
 _TOKCOUNT = re.compile(r'"(?:[^"\\\n]|\\.)*"?|\'(?:[^\'\\\n]|\\.)*\'?|'
                        r'[A-Za-z_]\w*|[0-9][\w.]*|\S')
+
+
+def _real_muts(muts):
+    "Mutations proper: white space and line end styles are none"
+    return [m for m in muts if m != 'odd-seps' and not m.startswith('eol-')]
 
 
 def ntokens(text):
@@ -936,7 +1015,34 @@ _POOL = _KEYWORDS + _PUNCT + _ODD_LITERALS + ['Key', 'Description', 'MaxLen',
 _SEPS_PLAIN = [' ', ' ', ' ', '\n', '\n    ', '  ', '\t']
 _SEPS_ODD = ['\r\n', '\r', '\r\r\r ', '\n\r\r', ' /* c */ ',
              ' /* multi\n line */ ', '\n/*\n\n*/\n', ' // remark\n',
-             '\n\n\n', '\x0c', '\t\t', '', ' /**/ ']
+             '\n\n\n', '\x0c', '\t\t', '', ' /**/ ',
+             '\r\n\r\n', '\r\n\r\n\r\n  ', '\r\n \r\n', '\n\r\n\r\n',
+             ' // remark\r\n\r\n', '\r\r\n\r\r\n']
+
+# line-end styles applied to the whole rendered text (the lexer sees them in
+# compile_string; compile_file reads with universal newlines)
+EOL_STYLES = ['lf'] * 7 + ['crlf', 'crlf', 'cr-lf-mixed', 'cr']
+
+
+def apply_eol(text, style, blank=False):
+    """
+    Rewrite the line ends of text.  blank: additionally turn some line ends
+    into runs of line ends (blank lines) first.
+    """
+    if style == 'lf':
+        return text
+    if blank:
+        text = text.replace(';\n', ';\n\n\n').replace('{\n', '{\n\n')
+    if style == 'crlf':
+        return text.replace('\r\n', '\n').replace('\n', '\r\n')
+    if style == 'cr':
+        # bare CR is white space for the lexer, not a line end
+        return text.replace('\n', '\r')
+    out = []
+    for i, part in enumerate(text.split('\n')):
+        out.append(part)
+        out.append('\r\n' if i % 3 else '\n')
+    return ''.join(out[:-1])
 
 # mutations that can only produce syntax errors (or still valid text)
 SYNTAX_MUTATIONS = ['drop', 'dup', 'swap', 'trunc', 'unterminated-string',
@@ -1090,6 +1196,10 @@ def g_mutated_text(draw, base, mutations=None):
     text = render(toks, seps)
     if _chance(draw, 50) and not text.endswith('\n'):
         text += '\n'
+    style = _pick(draw, EOL_STYLES)
+    if style != 'lf':
+        text = apply_eol(text, style, blank=_chance(draw, 60))
+        muts.append('eol-' + style)
     return text, tuple(muts) + (('odd-seps',) if odd else ())
 
 
@@ -1147,16 +1257,25 @@ def string_oracle(ctx, ex):
     has_include = bool(re.search(r'pragma\s+include', text, re.I))
     classes = judge(ctx, kind, exc, text, has_include, cands,
                     position=not _in_embedded(exc))
+    classes += eol_classes(text)
+    if kind == 'mof' and not _in_embedded(exc) and exc.file is None and \
+            not has_include:
+        label = check_cr_invariance(ctx, exc, text, ns,
+                                    [TESTMOFS] if corpus else None)
+        if label:
+            classes.append(label)
+            if 'eol:crlf-blank-lines' in classes:
+                classes.append('pos:error-in-text-with-crlf-blank-lines')
     check_reuse(ctx, comp, kind, text)
-    muts = ex.get('muts', ())
-    classes += ['mut:' + m for m in muts] or ['mut:none']
+    allmuts = ex.get('muts', ())
+    classes += ['mut:' + m for m in allmuts] or ['mut:none']
+    muts = _real_muts(allmuts)
     if not muts and ex.get('src') == 'grammar':
         classes.append('base:' + ('valid' if kind == 'ok' else 'invalid'))
     classes.append('src:' + ex.get('src', 'text'))
     nt = ntokens(text)
     ctx.case(nontrivial=(nt >= 5 and (ex.get('src') == 'text' or
-                                      1 <= len([m for m in muts
-                                                if m != 'odd-seps']))),
+                                      1 <= len(muts))),
              classes=classes + ['tokens>=5' if nt >= 5 else 'tokens<5'])
 
 
@@ -1170,6 +1289,12 @@ POSITION_EXPLICIT = [
     'class A { $ };',                          # last line without newline
     'class A {\n  $ };\n',
     '\n\nclass A { [Nope] string s;\n};\n',    # error raised in a production
+    # CR-LF line ends with blank lines before the error (in the middle and
+    # on the last line of the input)
+    'class A {\r\n\r\n\r\n  uint8 p;\r\n\r\n  $ };\r\nclass B {};\r\n'
+    'class C {};\r\nclass D {};\r\nclass E {};\r\n',
+    '// c\r\n\r\n\r\n\r\nclass A {\r\n\r\n @ };',
+    'class A {};\r\n\r\n\r\nclass A2 {\r\n  string s = "a\r\n"; };\r\n',
 ]
 STRINGS_EXPLICIT = POSITION_EXPLICIT + [
     '#pragma namespace("1:")',
@@ -1580,7 +1705,7 @@ def files_oracle(ctx, ex):
     finally:
         os.chdir(cwd)
         shutil.rmtree(tmp, ignore_errors=True)
-    muts = [m for m in ex['muts'] if m != 'odd-seps']
+    muts = _real_muts(ex['muts'])
     info = ex.get('info')
     ctx.case(nontrivial=bool(muts) or ex['structure'] in
              ('missing', 'self', 'mutual', 'directory', 'nonutf8',
@@ -1857,9 +1982,303 @@ def mock_oracle(ctx, ex):
         elif _canon_mock(conn, CHECK_NS) != _expected('mock'):
             ctx.fail('reuse-mock:check-unit-result-differs-after-' + kind,
                      runner.short_repr(text, 700))
-    muts = [m for m in ex['muts'] if m != 'odd-seps']
+    muts = _real_muts(ex['muts'])
     ctx.case(nontrivial=ntokens(text) >= 5 and bool(muts),
              classes=classes + ['mut:' + m for m in ex['muts']])
+
+
+# ---------------------------------------------------------------------------
+# sub-check: depreuse - reuse after a failure that involved the search path
+
+DEP_PRELUDE = PRELUDE
+
+
+class StrictRepo(pywbem.BaseRepositoryConnection):
+    """
+    A repository that stores only what it accepted: CreateClass rejects a
+    class whose superclass (INVALID_SUPERCLASS), reference classes or
+    EmbeddedInstance classes (INVALID_PARAMETER) do not exist, or that exists
+    already.  (MOFWBEMConnection keeps rejected classes in its local store,
+    which hides compiler state that wrongly says 'this class is known'.)
+    """
+
+    default_namespace = 'root/cimv2'
+
+    def __init__(self):
+        self.classes = {}      # ns -> {lower name: CIMClass}
+        self.qualifiers = {}   # ns -> {lower name: declaration}
+        self.instances = {}
+
+    def _ns(self, kwargs):
+        return kwargs.get('namespace') or self.default_namespace
+
+    def GetClass(self, *args, **kwargs):
+        name = args[0] if args else kwargs['ClassName']
+        try:
+            cls = self.classes[self._ns(kwargs)][name.lower()].copy()
+        except KeyError:
+            raise CIMError(pywbem.CIM_ERR_NOT_FOUND, name)
+        if not kwargs.get('LocalOnly', True) and cls.superclass:
+            sup = self.GetClass(cls.superclass, namespace=self._ns(kwargs),
+                                LocalOnly=False)
+            for prop in sup.properties.values():
+                if prop.name not in cls.properties:
+                    cls.properties[prop.name] = prop
+        return cls
+
+    def CreateClass(self, *args, **kwargs):
+        cls = args[0] if args else kwargs['NewClass']
+        store = self.classes.setdefault(self._ns(kwargs), {})
+        if cls.classname.lower() in store:
+            raise CIMError(pywbem.CIM_ERR_ALREADY_EXISTS, cls.classname)
+        if cls.superclass and cls.superclass.lower() not in store:
+            raise CIMError(pywbem.CIM_ERR_INVALID_SUPERCLASS, cls.superclass)
+        for prop in cls.properties.values():
+            if prop.type == 'reference' and \
+                    prop.reference_class.lower() not in store:
+                raise CIMError(pywbem.CIM_ERR_INVALID_PARAMETER,
+                               prop.reference_class)
+            emb = prop.qualifiers.get('EmbeddedInstance')
+            if emb is not None and isinstance(emb.value, str) and \
+                    emb.value.lower() not in store:
+                raise CIMError(pywbem.CIM_ERR_INVALID_PARAMETER, emb.value)
+        store[cls.classname.lower()] = cls.copy()
+
+    def ModifyClass(self, *args, **kwargs):
+        cls = args[0] if args else kwargs['ModifiedClass']
+        self.classes.setdefault(self._ns(kwargs), {})[
+            cls.classname.lower()] = cls.copy()
+
+    def EnumerateQualifiers(self, *args, **kwargs):
+        return list(self.qualifiers.get(self._ns(kwargs), {}).values())
+
+    def GetQualifier(self, *args, **kwargs):
+        name = args[0] if args else kwargs['QualifierName']
+        try:
+            return self.qualifiers[self._ns(kwargs)][name.lower()]
+        except KeyError:
+            raise CIMError(pywbem.CIM_ERR_NOT_FOUND, name)
+
+    def SetQualifier(self, *args, **kwargs):
+        qual = args[0] if args else kwargs['QualifierDeclaration']
+        self.qualifiers.setdefault(self._ns(kwargs), {})[
+            qual.name.lower()] = qual
+
+    def _unsupported(self, *args, **kwargs):
+        raise CIMError(pywbem.CIM_ERR_NOT_SUPPORTED, 'not provided')
+
+    DeleteClass = DeleteQualifier = EnumerateInstanceNames = _unsupported
+    CreateInstance = ModifyInstance = DeleteInstance = _unsupported
+
+    def canon(self, ns):
+        return sorted('C ' + c.tocimxmlstr()
+                      for c in self.classes.get(ns, {}).values())
+
+
+def _dep_class_text(name, deps, assoc, has_super_key):
+    "MOF of one class of the dependency forest; deps: [(kind, target)]"
+    sup = [t for k, t in deps if k == 'super']
+    feats = []
+    if not sup:
+        feats.append('[Key] string Id;')
+    for k, t in deps:
+        if k == 'ref':
+            feats.append('[Key] %s REF to_%s;' % (t, t))
+        elif k == 'emb':
+            feats.append('[EmbeddedInstance("%s")] string in_%s_%s;' %
+                         (t, name, t))
+    head = '[Association] ' if assoc else ''
+    head += 'class ' + name
+    if sup:
+        head += ' : ' + sup[0]
+    del has_super_key
+    return head + ' {\n    ' + '\n    '.join(feats) + '\n};\n'
+
+
+@st.composite
+def depreuse_strategy(draw):
+    """
+    A dependency forest D0..Dn-1 (superclass, reference and EmbeddedInstance
+    dependencies towards higher numbers), each class in its own file of the
+    search path, missing, or in a file that is broken or defines something
+    else.  Step 1 compiles a class that needs D0 (fails if the closure has a
+    defect); then every defect is repaired, in the MOF text of step 2 or in
+    the search path; step 2 compiles valid MOF that needs D0 again.
+    """
+    n = _int(draw, 2, 5)
+    deps = {}
+    for i in range(n - 1):
+        cand = list(range(i + 1, n))
+        ds = []
+        nd = 1 if i == 0 else _int(draw, 0, 2)
+        for _ in range(nd):
+            t = _pick(draw, cand)
+            kind = _pick(draw, ['ref', 'ref', 'emb', 'super'])
+            if any(x[1] == t for x in ds):
+                continue
+            if kind == 'super' and any(x[0] in ('super', 'ref')
+                                       for x in ds):
+                kind = 'emb'
+            if kind == 'ref' and any(x[0] == 'super' for x in ds):
+                kind = 'emb'
+            ds.append((kind, t))
+        deps[i] = ds
+    deps[n - 1] = []
+    assoc = {}
+    for i in reversed(range(n)):
+        assoc[i] = any(k == 'ref' for k, _ in deps[i]) or \
+            any(k == 'super' and assoc[t] for k, t in deps[i])
+    status = {}
+    repair = {}
+    for i in range(n):
+        status[i] = _pick(draw, ['file', 'file', 'file', 'missing',
+                                 'missing', 'broken', 'wrongfile'])
+        repair[i] = _pick(draw, ['inline', 'inline', 'file'])
+    topkind1 = _pick(draw, ['ref', 'ref', 'emb', 'super'])
+    topkind2 = _pick(draw, ['ref', 'ref', 'emb', 'super', 'same'])
+    names = ['Dep_%d' % i for i in range(n)]
+    texts = {i: _dep_class_text(names[i],
+                                [(k, names[t]) for k, t in deps[i]],
+                                assoc[i], False) for i in range(n)}
+
+    def top(name, kind):
+        return _dep_class_text(name, [(kind, names[0])],
+                               kind == 'ref' or
+                               (kind == 'super' and assoc[0]), False)
+
+    files1 = {}
+    files2 = {}
+    inline = []
+    for i in range(n):
+        fname = names[i] + '.mof'
+        good = texts[i]
+        if status[i] == 'file':
+            files1[fname] = files2[fname] = good
+            continue
+        if status[i] == 'broken':
+            files1[fname] = good.replace('{', '{ $', 1)
+        elif status[i] == 'wrongfile':
+            files1[fname] = 'class Dep_Other_%d { [Key] string Id; };\n' % i
+        if repair[i] == 'file':
+            files2[fname] = good
+        else:
+            if fname in files1:
+                files2[fname] = files1[fname]
+            inline.append(i)
+    step1 = top('Dep_Top1', topkind1)
+    step2 = ''.join(texts[i] for i in sorted(inline, reverse=True))
+    if topkind2 == 'same':
+        step2 += step1 if False else top('Dep_Top2', topkind1)
+    else:
+        step2 += top('Dep_Top2', topkind2)
+    return dict(handle=_pick(draw, ['strict', 'strict', 'faked']),
+                files1=files1, files2=files2, step1=step1, step2=step2,
+                ns=_pick(draw, [None, 'root/cimv2']),
+                status=dict((names[i], status[i]) for i in range(n)),
+                defects=tuple(sorted(set(status[i] for i in range(n)
+                                         if status[i] != 'file'))),
+                repairs=tuple(sorted(set(repair[i] for i in range(n)
+                                         if status[i] != 'file'))),
+                kinds=tuple(sorted(set(k for i in deps for k, _ in deps[i])
+                                   | {topkind1})))
+
+
+def _dep_sequence(ex, tmp, reuse):
+    """
+    Prelude, step 1, repairs, step 2 on a new repository; step 2 on the same
+    compiler object (reuse) or on a new one for the same repository.
+    Returns ((kind1, exc1), (kind2, exc2), canonical classes).
+    """
+    os.makedirs(tmp)
+    if ex['handle'] == 'faked':
+        import pywbem_mock
+        handle = pywbem_mock.FakedWBEMConnection()
+    else:
+        handle = StrictRepo()
+    ns = ex['ns']
+    comp = new_compiler(handle, search_paths=[tmp])
+    r0 = _attempt(lambda: comp.compile_string(DEP_PRELUDE, ns))
+    if r0[0] != 'ok':
+        return r0, r0, None
+    for name, text in ex['files1'].items():
+        with open(os.path.join(tmp, name), 'w', encoding='utf-8') as fp:
+            fp.write(text)
+    r1 = _attempt(lambda: comp.compile_string(ex['step1'], ns))
+    for name in ex['files1']:
+        os.remove(os.path.join(tmp, name))
+    for name, text in ex['files2'].items():
+        with open(os.path.join(tmp, name), 'w', encoding='utf-8') as fp:
+            fp.write(text)
+    comp2 = comp if reuse else new_compiler(handle, search_paths=[tmp])
+    r2 = _attempt(lambda: comp2.compile_string(ex['step2'], ns))
+    nsn = ns or 'root/cimv2'
+    if ex['handle'] == 'faked':
+        canon = sorted('C ' + c.tocimxmlstr() for c in
+                       handle.cimrepository.get_class_store(nsn)
+                       .iter_values())
+    else:
+        canon = handle.canon(nsn)
+    return r1, r2, canon
+
+
+def depreuse_oracle(ctx, ex):
+    tmp = os.path.realpath(tempfile.mkdtemp(prefix='c09-dep-'))
+    try:
+        r1a, r2a, canon_a = _dep_sequence(ex, os.path.join(tmp, 'a'), True)
+        r1b, r2b, canon_b = _dep_sequence(ex, os.path.join(tmp, 'a2'),
+                                          False)
+    finally:
+        shutil.rmtree(tmp, ignore_errors=True)
+    text = ex['step1'] + '\n--- step 2:\n' + ex['step2'] + \
+        '\n--- search path at step 1: %r\n--- at step 2: %r' % (
+            ex['files1'], ex['files2'])
+
+    def tag(res):
+        kind, exc = res
+        return kind if kind != 'mof' else type(exc).__name__
+
+    classes = ['handle:' + ex['handle'], 'step1:' + tag(r1a),
+               'step2-reused:' + tag(r2a), 'step2-fresh:' + tag(r2b)]
+    classes += ['defect:' + d for d in ex['defects']] or ['defect:none']
+    classes += ['repair:' + d for d in ex['repairs']]
+    classes += ['dep:' + k for k in ex['kinds']]
+    for step, res in (('step1', r1a), ('step2', r2a), ('step2-fresh', r2b)):
+        kind, exc = res
+        if kind == 'leak':
+            ctx.fail(leak_signature(exc, text) + '@' + step,
+                     _detail(exc, text))
+        elif kind == 'timeout':
+            ctx.fail('nontermination:depreuse-' + step, text)
+        elif kind == 'os':
+            ctx.fail('leak:OSError-without-missing-file:' + step,
+                     _detail(exc, text))
+    if tag(r1a) != tag(r1b):
+        ctx.fail('depreuse:step-1-not-deterministic',
+                 '%s vs %s\n%s' % (tag(r1a), tag(r1b), text))
+    elif r2b[0] == 'ok' and r2a[0] == 'mof':
+        # which dependency the reused compiler did not resolve, and what
+        # was wrong with it at step 1 (different causes, different keys)
+        msg = r2a[1].msg or ''
+        failing = re.findall(r'Cannot compile class \S*?(Dep_\d+)', msg)
+        named = sorted((set(re.findall(r'Dep_\d+', msg)) - set(failing)) &
+                       set(ex['status']))
+        what = '+'.join(sorted(set(ex['status'][x] for x in named))) or \
+            'unknown'
+        ctx.fail('depreuse:valid-mof-fails-only-on-the-compiler-that-had-a-'
+                 'failed-compile:%s:dependency-was-%s-at-step-1' %
+                 (type(r2a[1]).__name__, what),
+                 'step 1 ended with %s; step 2 on a new compiler for the '
+                 'same repository succeeds, on the same compiler: %s\n%s' %
+                 (tag(r1a), r2a[1], text))
+    elif tag(r2a) != tag(r2b):
+        ctx.fail('depreuse:step-2-outcome-differs-from-new-compiler',
+                 'same compiler: %s, new compiler: %s\n%s' %
+                 (tag(r2a), tag(r2b), text))
+    elif canon_a != canon_b:
+        ctx.fail('depreuse:repository-differs-from-new-compiler',
+                 '%r\nvs\n%r\n%s' % (canon_a, canon_b, text))
+    ctx.case(nontrivial=r1a[0] == 'mof' and r2b[0] == 'ok',
+             classes=classes)
 
 
 # ---------------------------------------------------------------------------
@@ -1986,6 +2405,8 @@ SUBCHECKS = [
         thorough=(8, 0)),
     Sub('atheris', enumerate=atheris_campaign, quick=(0, 0),
         thorough=(8, 0), budget=(0, 900)),
+    Sub('depreuse', strategy=depreuse_strategy, oracle=depreuse_oracle,
+        quick=(8, 70), thorough=(16, 1500), case_timeout=90),
 ]
 SUBCHECKS[6].replay = atheris_replay
 SUBCHECKS[1].replay = typed_replay
